@@ -1886,6 +1886,9 @@ class BaseInterpreter(Generic[TContext, TEvent]):
 
         # 4. All other transitions are "external" and will cause a state change.
         snapshot_before = self._active_state_nodes.copy()
+        # 🕰️ Exiting records history before anything else happens; an aborted
+        #    transition must take that back as well.
+        history_before = dict(self._history)
         domain = self._find_transition_domain(
             transition, self._domain_anchor(target_state)
         )
@@ -1972,6 +1975,7 @@ class BaseInterpreter(Generic[TContext, TEvent]):
             )
             self._active_state_nodes.clear()
             self._active_state_nodes.update(snapshot_before)
+            self._history = history_before
 
             # ⏱️ Re-arm what exiting tore down. `_exit_states` cancels each
             #    exited state's `after` timers and invoked services, so a
